@@ -26,6 +26,7 @@ RULE = ("case = one key word (incl. null keys) x configuration (values 1-D / 2 c
         "boundary case = group size x n around 32767/32768/65535/65536; non-trivial = a group with "
         ">= 2 rows or a null key")
 ASSUMPTIONS = [
+    'boundary family for narrow group codes: categorical (int8 / int16 codes) and boolean keys, group sizes around 127/128/255/256 and 32768, n around the same limits',
     "n <= 5 rows (quick) / 6 (thorough) in the exhaustive part, G <= 3",
     "only keep_input_index=True (the property's scope)",
     "order across groups is not constrained, only the relative order inside a group",
